@@ -1,4 +1,4 @@
-(* C09 (a) for whole frames: a valid frame cut strictly inside a field - with
+(* C09 for whole frames: a valid frame cut strictly inside a field - with
    the remaining length equal to the shortened size - is rejected. Built on
    the per-field lemmas of RejectP, the decoding of complete fields from
    RoundP/AcceptP, and error stickiness. *)
@@ -281,11 +281,181 @@ Proof.
 Qed.
 
 (* ------------------------------------------------------------------ *)
+(* (b)-(d): a property section that goes wrong after some whole properties *)
+Lemma get_val_fail w old s t : derr s = None -> skipn (dpos s) (ddata s) = t -> t <> [] ->
+  is_err (decode w old t) -> exists s', get_val w old s = GNo s' /\ derr s' <> None /\ dp s' = dp s.
+Proof.
+  intros He Hs Hne [e Ed]. unfold get_val, get_with. cbn [derr tick ddata dpos]. rewrite He.
+  assert (Hl : (dpos s < length (ddata s))%nat).
+  { destruct (Nat.lt_ge_cases (dpos s) (length (ddata s))) as [H|H]; [exact H|].
+    rewrite skipn_all2 in Hs by exact H. congruence. }
+  rewrite (proj2 (Nat.leb_gt _ _) Hl). rewrite Hs, Ed. eexists. split; [reflexivity|]. split; [discriminate|reflexivity].
+Qed.
+
+(* the identifier byte of the next property is read *)
+Ltac read_id acc d pre steps id t Hid Hd :=
+  let G1 := fresh "G1" in
+  pose proof (get_val_encoded U8 (VN id) (VN 0) (mk_state acc d (length pre) steps) pre t) as G1;
+  cbn [encode enc_u8 valN canon] in G1; unfold mk_state in G1 at 1 2 3 4 5;
+  cbn [derr ddata dpos dp dsteps] in G1.
+
+(* a boolean property with a value other than 0 and 1 *)
+Lemma prop_bad_bool m will sm endp fuel id0 acc d pre steps id r b t :
+  id < 256 -> id <> 11 -> lookup_prop m id = Some (r, WBool) -> ref_live acc r -> 2 <= b2n b ->
+  d = pre ++ n2b id :: b :: t -> N.of_nat (length pre) < endp -> fuel <> O ->
+  exists s', getany_loop (S fuel) m will sm endp id0 (mk_state acc d (length pre) steps) = Run s' /\ derr s' <> None.
+Proof.
+  intros Hid H11 Hl Hlive Hb Hd Hend Hfuel.
+  cbn [getany_loop]. unfold mk_state at 1. cbn [dpos]. rewrite (proj2 (N.ltb_lt _ _) Hend).
+  pose proof (get_val_encoded U8 (VN id) (VN id0) (mk_state acc d (length pre) steps) pre (b :: t)) as G1.
+  cbn [encode enc_u8 valN canon] in G1. unfold mk_state in G1 at 1 2 3 4 5.
+  cbn [derr ddata dpos dp dsteps] in G1. unfold mk_state at 1.
+  rewrite G1; [|discriminate|exact Hid|discriminate|reflexivity|exact Hd|reflexivity|cbn; lia].
+  clear G1. cbn [valN].
+  change (ddata (mk_state acc d (length pre) steps)) with d.
+  change (dpos (mk_state acc d (length pre) steps)) with (length pre).
+  change (dsteps (mk_state acc d (length pre) steps)) with steps.
+  change (enc_u8 id) with [n2b id].
+  set (s1 := {| dp := acc; ddata := d; dpos := length pre + length [n2b id]; derr := None; dsteps := S steps |}).
+  assert (Hlk : match sm with
+                | SubOpt => if id =? SubscriptionID then None else lookup_prop m id
+                | _ => lookup_prop m id end = Some (r, WBool)).
+  { destruct sm; try exact Hl. destruct (N.eqb_spec id SubscriptionID) as [Q|Q]; [exfalso; exact (H11 Q)|exact Hl]. }
+  rewrite Hlk. unfold get. cbn [dp s1]. rewrite (getf_opt_live acc r Hlive).
+  destruct (get_val_fail WBool (getf r acc) s1 (b :: t)) as [s2 [E2 [He2 _]]]; try reflexivity; try discriminate.
+  { cbn [ddata dpos s1]. rewrite Hd. replace (pre ++ n2b id :: b :: t) with ((pre ++ [n2b id]) ++ b :: t)
+      by (rewrite <- app_assoc; reflexivity). rewrite <- (app_length pre). apply skipn_app_exact. }
+  { eexists. apply bool_out_of_range. exact Hb. }
+  rewrite E2. apply getany_loop_err; [exact He2|exact Hfuel].
+Qed.
+
+(* a subscription identifier that continues beyond four bytes *)
+Lemma prop_bad_subid m will sm endp fuel id0 acc d pre steps a b c e t :
+  lookup_prop m 11 = None -> cont a = true -> cont b = true -> cont c = true -> cont e = true ->
+  d = pre ++ n2b 11 :: a :: b :: c :: e :: t -> N.of_nat (length pre) < endp -> fuel <> O ->
+  exists s', getany_loop (S fuel) m will sm endp id0 (mk_state acc d (length pre) steps) = Run s' /\ derr s' <> None.
+Proof.
+  intros Hl Ha Hb Hc He Hd Hend Hfuel.
+  cbn [getany_loop]. unfold mk_state at 1. cbn [dpos]. rewrite (proj2 (N.ltb_lt _ _) Hend).
+  pose proof (get_val_encoded U8 (VN 11) (VN id0) (mk_state acc d (length pre) steps) pre (a :: b :: c :: e :: t)) as G1.
+  cbn [encode enc_u8 valN canon] in G1. unfold mk_state in G1 at 1 2 3 4 5.
+  cbn [derr ddata dpos dp dsteps] in G1. unfold mk_state at 1.
+  rewrite G1; [|discriminate|reflexivity|discriminate|reflexivity|exact Hd|reflexivity|cbn; lia].
+  clear G1. cbn [valN].
+  change (ddata (mk_state acc d (length pre) steps)) with d.
+  change (dpos (mk_state acc d (length pre) steps)) with (length pre).
+  change (dsteps (mk_state acc d (length pre) steps)) with steps.
+  change (enc_u8 11) with [n2b 11].
+  set (s1 := {| dp := acc; ddata := d; dpos := length pre + length [n2b 11]; derr := None; dsteps := S steps |}).
+  assert (Gv : forall q, exists s2, get_val Vb (VN 0) (with_pkt q s1) = GNo s2 /\ derr s2 <> None).
+  { intros q. destruct (get_val_fail Vb (VN 0) (with_pkt q s1) (a :: b :: c :: e :: t)) as [s2 [E2 [He2 _]]];
+      try reflexivity; try discriminate.
+    - cbn [ddata dpos with_pkt s1]. rewrite Hd.
+      replace (pre ++ n2b 11 :: a :: b :: c :: e :: t) with ((pre ++ [n2b 11]) ++ a :: b :: c :: e :: t)
+        by (rewrite <- app_assoc; reflexivity). rewrite <- (app_length pre). apply skipn_app_exact.
+    - destruct (dec_vb_five a b c e t Ha Hb Hc He) as [er Er]. exists er. cbn [decode]. rewrite Er. reflexivity.
+    - exists s2. split; assumption. }
+  change (11 =? SubscriptionID) with true. change (11 =? UserProperty) with false.
+  destruct sm.
+  - rewrite Hl. destruct (Gv acc) as [s2 [E2 He2]].
+    assert (Ew : with_pkt acc s1 = s1) by reflexivity. rewrite Ew in E2. rewrite E2.
+    apply getany_loop_err; [exact He2|exact Hfuel].
+  - rewrite Hl. destruct (Gv acc) as [s2 [E2 He2]].
+    assert (Ew : with_pkt acc s1 = s1) by reflexivity. rewrite Ew in E2. rewrite E2.
+    apply getany_loop_err; [cbn [derr with_pkt]; exact He2|exact Hfuel].
+  - destruct (Gv (set_subid (dp s1) (Some 0))) as [s2 [E2 He2]]. rewrite E2.
+    apply getany_loop_err; [exact He2|exact Hfuel].
+Qed.
+
+(* an identifier MQTT does not define *)
+Lemma prop_bad_unknown m will sm endp fuel id0 acc d pre steps u t :
+  map_ids_defined m = true -> u < 256 -> prop_type u = None ->
+  d = pre ++ n2b u :: t -> N.of_nat (length pre) < endp -> fuel <> O ->
+  exists s', getany_loop (S fuel) m will sm endp id0 (mk_state acc d (length pre) steps) = Run s' /\ derr s' <> None.
+Proof.
+  intros Hm Hu Hp Hd Hend Hfuel.
+  destruct (getany_unknown fuel m will sm endp id0 (mk_state acc d (length pre) steps) (n2b u)) as [s1 [He1 E1]];
+    try assumption; try reflexivity.
+  - rewrite b2n_n2b_small by exact Hu. exact Hp.
+  - cbn [dpos ddata mk_state]. rewrite Hd, app_length. cbn [length]. lia.
+  - cbn [dpos ddata mk_state]. rewrite Hd. rewrite nth_error_app2 by lia. rewrite Nat.sub_diag. reflexivity.
+  - rewrite E1. apply getany_loop_err; [rewrite He1; discriminate|exact Hfuel].
+Qed.
+
+(* the section: after the whole properties ps1 the loop is still inside the
+   declared length and its next iteration ends with an error *)
+Lemma getany_poison m will sm ps1 acc pre L t steps d :
+  nodup_refs m = true -> lookup_prop m UserProperty = None ->
+  (sm = AddSub -> lookup_prop m SubscriptionID = None) ->
+  Forall (prop_ok m will sm) ps1 -> NoDup (keyed_ids ps1) ->
+  (forall ap, In ap ps1 -> keyed ap = true -> forall r w,
+       lookup_prop m (ap_id ap) = Some (r, w) -> w = Bin -> valS (getf r acc) = []) ->
+  (will = true -> hasWill acc = true) ->
+  L < 268435456 -> len (e_props_raw ps1) < L ->
+  d = pre ++ enc_vb L ++ e_props_raw ps1 ++ t ->
+  (forall fuel id0 acc' steps', fuel <> O -> (will = true -> hasWill acc' = true) ->
+     exists s', getany_loop (S fuel) m will sm (N.of_nat (length (pre ++ enc_vb L)) + L) id0
+                  (mk_state acc' d (length ((pre ++ enc_vb L) ++ e_props_raw ps1)) steps') = Run s' /\ derr s' <> None) ->
+  exists s', getany m will sm (mk_state acc d (length pre) steps) = Run s' /\ derr s' <> None.
+Proof.
+  intros Hnd H38 H11 Hok Hdup Hinv Hw HL Hlt Hd Hbad.
+  assert (Hvpos : (0 < length (enc_vb L))%nat) by (apply (encode_nonempty Vb (VN L)); discriminate).
+  unfold getany.
+  assert (Hne : at_end (mk_state acc d (length pre) steps) = false).
+  { unfold at_end, mk_state. cbn [dpos ddata]. apply Nat.eqb_neq. rewrite Hd, !app_length. lia. }
+  rewrite Hne.
+  pose proof (get_val_encoded Vb (VN L) (VN 0) (mk_state acc d (length pre) steps) pre (e_props_raw ps1 ++ t)) as G.
+  cbn [encode valN canon] in G. unfold mk_state in G at 1 2 3 4 5. cbn [derr ddata dpos dp dsteps] in G.
+  unfold mk_state at 1.
+  rewrite G; [|discriminate|exact HL|discriminate|reflexivity|exact Hd|reflexivity|exact Hvpos]. clear G.
+  cbn [valN].
+  change (ddata (mk_state acc d (length pre) steps)) with d.
+  change (dpos (mk_state acc d (length pre) steps)) with (length pre).
+  change (dsteps (mk_state acc d (length pre) steps)) with steps.
+  match goal with |- context [ {| dp := acc; ddata := d; dpos := ?q; derr := None; dsteps := ?st |} ] =>
+    change {| dp := acc; ddata := d; dpos := q; derr := None; dsteps := st |} with (mk_state acc d q st) end.
+  set (pre1 := pre ++ enc_vb L) in *.
+  assert (Hpre1 : length pre1 = (length pre + length (enc_vb L))%nat) by (unfold pre1; apply app_length).
+  rewrite <- Hpre1. change (dpos (mk_state acc d (length pre1) (S steps))) with (length pre1).
+  set (endp := N.of_nat (length pre1) + L) in *.
+  pose proof (props_count ps1) as Hcount.
+  assert (Hfuel : exists extra, S (length d) = (length ps1 + S (S extra))%nat).
+  { exists (length d - length ps1 - 1)%nat. rewrite Hd, !app_length. lia. }
+  destruct Hfuel as [extra Hfuel]. rewrite Hfuel.
+  destruct (props_loop m will sm endp Hnd H38 H11 ps1 (S (S extra)) 0 acc d pre1 t (S steps)
+              Hok Hdup Hinv Hw) as [id1 [st1 E1]].
+  - unfold pre1. rewrite Hd, <- !app_assoc. reflexivity.
+  - unfold endp, len in *. lia.
+  - rewrite E1. rewrite <- (app_length pre1). apply Hbad; [discriminate|].
+    intros Hwt. rewrite hasWill_apply_props. apply Hw. exact Hwt.
+Qed.
+
+(* a property length that cannot be read *)
+Lemma getany_bad_len m will sm acc pre steps d t :
+  t <> [] -> rejected (dec_vb t) -> d = pre ++ t ->
+  exists s', getany m will sm (mk_state acc d (length pre) steps) = Run s' /\ derr s' <> None.
+Proof.
+  intros Hne [er Er] Hd. unfold getany.
+  assert (Hnend : at_end (mk_state acc d (length pre) steps) = false).
+  { unfold at_end, mk_state. cbn [dpos ddata]. apply Nat.eqb_neq. rewrite Hd, !app_length.
+    destruct t; [congruence|cbn [length]; lia]. }
+  rewrite Hnend.
+  destruct (get_val_fail Vb (VN 0) (mk_state acc d (length pre) steps) t) as [s1 [E1 [He1 _]]];
+    try reflexivity; try assumption.
+  - cbn [ddata dpos mk_state]. rewrite Hd. apply skipn_app_exact.
+  - exists er. cbn [decode]. rewrite Er. reflexivity.
+  - rewrite E1. apply getany_loop_err; [exact He1|discriminate].
+Qed.
+
+(* ------------------------------------------------------------------ *)
 (* Chains: a decoder program walked along the fields of a body.  Each link
    says (step_ok) that with the field whole and something after it the
-   program consumes exactly that field, and (cut_ok) that with only j
-   bytes of it left in the data - j in the set J of the link - the program
-   ends with an error.  A cut frame then errs whichever link it hits. *)
+   program consumes exactly that field, and (fails_ok) that with what is
+   left of the data from the field's position on being one of the link's
+   failing remainders - the first j bytes of the field for j in its set J
+   (a cut), or a string of its set K followed by anything (a poisoned
+   property section) - the program ends with an error.  A damaged frame
+   then errs whichever link the damage hits. *)
 Definition errs (r : res) : Prop := match r with Run s' => derr s' <> None | _ => True end.
 
 Lemma run_dec_errs P s : derr s <> None -> errs (run_dec P s).
@@ -304,36 +474,55 @@ Definition cut_ok (P : list dec) (a : pkt) (pos : nat) (seg : list byte) (J : na
   forall d j steps, J j -> firstn j seg <> [] -> at_pos d pos (firstn j seg) ->
     errs (run_dec P (mk_state a d pos steps)).
 
-Definition field := (list byte * (nat -> Prop))%type.
+Definition poison_ok (P : list dec) (a : pkt) (pos : nat) (K : list byte -> Prop) : Prop :=
+  forall d bad rest steps, K bad -> at_pos d pos (bad ++ rest) ->
+    errs (run_dec P (mk_state a d pos steps)).
+
+Record field := { f_seg : list byte; f_J : nat -> Prop; f_K : list byte -> Prop }.
+
+(* what may be left of the data at the field's position for the link to fail *)
+Definition remainder (F : field) (rem : list byte) : Prop :=
+  (exists j, f_J F j /\ rem = firstn j (f_seg F)) \/ (exists bad rest, f_K F bad /\ rem = bad ++ rest).
+
+Definition fails_ok (P : list dec) (a : pkt) (pos : nat) (F : field) : Prop :=
+  forall d rem steps, remainder F rem -> rem <> [] -> at_pos d pos rem ->
+    errs (run_dec P (mk_state a d pos steps)).
+
+Lemma fails_of P a pos F : cut_ok P a pos (f_seg F) (f_J F) -> poison_ok P a pos (f_K F) -> fails_ok P a pos F.
+Proof.
+  intros Hc Hp d rem steps [[j [HJ ->]]|[bad [rest [HK ->]]]] Hne Hat.
+  - apply (Hc d j steps HJ Hne Hat).
+  - apply (Hp d bad rest steps HK Hat).
+Qed.
 
 Inductive cchain : list dec -> pkt -> nat -> list field -> Prop :=
 | cc_nil P a pos : cchain P a pos []
-| cc_last P a pos seg J : cut_ok P a pos seg J -> cchain P a pos [(seg, J)]
-| cc_cons P a pos seg J P1 a1 fs :
-    cut_ok P a pos seg J -> step_ok P a pos seg P1 a1 -> cchain P1 a1 (pos + length seg) fs ->
-    cchain P a pos ((seg, J) :: fs)
+| cc_last P a pos F : fails_ok P a pos F -> cchain P a pos [F]
+| cc_cons P a pos F P1 a1 fs :
+    fails_ok P a pos F -> step_ok P a pos (f_seg F) P1 a1 -> cchain P1 a1 (pos + length (f_seg F)) fs ->
+    cchain P a pos (F :: fs)
 | cc_silent P a pos P1 a1 fs :
     step_ok P a pos [] P1 a1 -> cchain P1 a1 pos fs -> cchain P a pos fs.
 
-Theorem cchain_cut P a pos fs : cchain P a pos fs ->
-  forall pre seg J post j d steps, fs = pre ++ (seg, J) :: post -> J j -> firstn j seg <> [] ->
-  at_pos d pos (concat (map fst pre) ++ firstn j seg) ->
+Theorem cchain_fails P a pos fs : cchain P a pos fs ->
+  forall pre F post rem d steps, fs = pre ++ F :: post -> remainder F rem -> rem <> [] ->
+  at_pos d pos (concat (map f_seg pre) ++ rem) ->
   errs (run_dec P (mk_state a d pos steps)).
 Proof.
-  induction 1 as [P a pos|P a pos seg0 J0 Hcut|P a pos seg0 J0 P1 a1 fs Hcut Hstep Hch IH|P a pos P1 a1 fs Hstep Hch IH];
-    intros pre seg J post j d steps Efs HJ Hne Hat.
+  induction 1 as [P a pos|P a pos F0 Hf|P a pos F0 P1 a1 fs Hf Hstep Hch IH|P a pos P1 a1 fs Hstep Hch IH];
+    intros pre F post rem d steps Efs HR Hne Hat.
   - destruct pre; discriminate Efs.
   - destruct pre as [|x pre]; [|destruct pre; discriminate Efs].
-    injection Efs as <- <- _. cbn [map concat app] in Hat. apply (Hcut d j steps HJ Hne Hat).
+    injection Efs as <-. cbn [map concat app] in Hat. apply (Hf d rem steps HR Hne Hat).
   - destruct pre as [|x pre].
-    + injection Efs as <- <- _. cbn [map concat app] in Hat. apply (Hcut d j steps HJ Hne Hat).
-    + injection Efs as <- Efs. cbn [map concat fst] in Hat. rewrite <- app_assoc in Hat.
-      destruct (Hstep d (concat (map fst pre) ++ firstn j seg) steps) as [st' E]; [|exact Hat|].
+    + injection Efs as <- _. cbn [map concat app] in Hat. apply (Hf d rem steps HR Hne Hat).
+    + injection Efs as <- Efs. cbn [map concat] in Hat. rewrite <- app_assoc in Hat.
+      destruct (Hstep d (concat (map f_seg pre) ++ rem) steps) as [st' E]; [|exact Hat|].
       { intros E0. apply app_eq_nil in E0 as [_ E0]. exact (Hne E0). }
-      rewrite E. apply (IH pre seg J post j d st' Efs HJ Hne). apply at_pos_app. exact Hat.
-  - destruct (Hstep d (concat (map fst pre) ++ firstn j seg) steps) as [st' E]; [|exact Hat|].
+      rewrite E. apply (IH pre F post rem d st' Efs HR Hne). apply at_pos_app. exact Hat.
+  - destruct (Hstep d (concat (map f_seg pre) ++ rem) steps) as [st' E]; [|exact Hat|].
     { intros E0. apply app_eq_nil in E0 as [_ E0]. exact (Hne E0). }
-    rewrite E. rewrite Nat.add_0_r. apply (IH pre seg J post j d st' Efs HJ Hne Hat).
+    rewrite E. rewrite Nat.add_0_r. apply (IH pre F post rem d st' Efs HR Hne Hat).
 Qed.
 
 (* the error is what UnmarshalBinary returns *)
@@ -349,6 +538,15 @@ Qed.
 (* ---------------- links ---------------- *)
 Definition interior (seg : list byte) (j : nat) : Prop := (0 < j < length seg)%nat.
 Definition nocut (j : nat) : Prop := False.
+Definition nopoison (b : list byte) : Prop := False.
+
+Definition fld (b : list byte) : field := {| f_seg := b; f_J := interior b; f_K := nopoison |}.
+Definition raw_fld (b : list byte) : field := {| f_seg := b; f_J := nocut; f_K := nopoison |}.
+
+Lemma cut_none P a pos seg : cut_ok P a pos seg nocut.
+Proof. intros d j steps []. Qed.
+Lemma poison_none P a pos : poison_ok P a pos nopoison.
+Proof. intros d bad rest steps []. Qed.
 
 Lemma link_get_step r w v a pos P :
   w <> Raw -> valid_val w v -> ref_live a r ->
@@ -369,35 +567,136 @@ Proof.
   apply (errs_step _ _ _ _ E He).
 Qed.
 
-Lemma link_getany_step m will sm ps a pos P :
-  nodup_refs m = true -> lookup_prop m UserProperty = None ->
-  (sm = AddSub -> lookup_prop m SubscriptionID = None) ->
-  Forall (prop_ok m will sm) ps -> NoDup (keyed_ids ps) ->
-  (forall ap, In ap ps -> keyed ap = true -> forall r w,
-       lookup_prop m (ap_id ap) = Some (r, w) -> w = Bin -> valS (getf r a) = []) ->
-  (will = true -> hasWill a = true) ->
-  len (e_props_raw ps) < 268435456 ->
-  step_ok (DGetAny m will sm :: P) a pos (e_props ps) P (apply_props m will sm ps a).
+Lemma link_get_fails r w v a pos P :
+  w <> Raw -> valid_val w v -> ref_live a r ->
+  fails_ok (DGet r w :: P) a pos (fld (encode w v)).
+Proof. intros Hw Hv Hl. apply fails_of; [apply link_get_cut; assumption|apply poison_none]. Qed.
+
+(* ---------------- property sections ---------------- *)
+(* what comes after some whole properties: an identifier MQTT does not
+   define, a boolean property with a value other than 0 and 1, or a
+   subscription identifier that continues beyond four bytes *)
+Definition bad_next (where_ : N) (t : list byte) : Prop :=
+  (exists u r, t = n2b u :: r /\ u < 256 /\ prop_type u = None)
+  \/ (exists id b r, t = n2b id :: b :: r /\ is_bool_prop id = true /\ allowed where_ id = true /\ 2 <= b2n b)
+  \/ (exists a b c e r, t = n2b 11 :: a :: b :: c :: e :: r
+                        /\ cont a = true /\ cont b = true /\ cont c = true /\ cont e = true).
+
+(* a poisoned section: its length continues beyond four bytes, or it
+   declares a length that reaches past some valid properties into one of
+   the above *)
+Definition bad_section (where_ : N) (okps : list aprop -> Prop) (bad : list byte) : Prop :=
+  (exists a b c e, bad = [a; b; c; e] /\ cont a = true /\ cont b = true /\ cont c = true /\ cont e = true)
+  \/ (exists L ps1 t, bad = e_var L ++ e_props_raw ps1 ++ t /\ L < 268435456 /\ len (e_props_raw ps1) < L
+                      /\ okps ps1 /\ bad_next where_ t).
+
+Definition sect (where_ : N) (okps : list aprop -> Prop) (ps : list aprop) : field :=
+  {| f_seg := e_props ps; f_J := interior (e_props ps); f_K := bad_section where_ okps |}.
+
+Definition bool_ids : list N := [1; 23; 25; 37; 40; 41; 42].
+
+Lemma is_bool_cases id : is_bool_prop id = true -> In id bool_ids.
 Proof.
-  intros Hnd H38 H11 Hok Hdup Hinv Hw HR d rest steps _ Hat.
-  destruct (dgetany_spec_at m will sm ps a d pos rest steps Hnd H38 H11 Hok Hdup Hinv Hw HR Hat) as [st [D _]].
-  exists st. apply run_dec_cons. exact D.
+  unfold is_bool_prop, bool_ids. destruct id as [|p]; [discriminate|].
+  do 8 (try match goal with q : positive |- _ => destruct q end; try discriminate; try (intros _; cbn; tauto)).
 Qed.
 
-Lemma link_getany_cut m will sm ps a pos P :
-  nodup_refs m = true -> lookup_prop m UserProperty = None ->
-  (sm = AddSub -> lookup_prop m SubscriptionID = None) ->
-  Forall (prop_ok m will sm) ps -> NoDup (keyed_ids ps) ->
-  (forall ap, In ap ps -> keyed ap = true -> forall r w,
-       lookup_prop m (ap_id ap) = Some (r, w) -> w = Bin -> valS (getf r a) = []) ->
-  (will = true -> hasWill a = true) ->
-  len (e_props_raw ps) < 268435456 ->
-  cut_ok (DGetAny m will sm :: P) a pos (e_props ps) (interior (e_props ps)).
+Definition bool_table (where_ : N) (m : list entry) (will : bool) : bool :=
+  forallb (fun id => negb (allowed where_ id) ||
+                     match lookup_prop m id with
+                     | Some (r, WBool) => match r with M _ => true | W _ => will end
+                     | _ => false end) bool_ids.
+
+Record sect_ok (where_ : N) (okps : list aprop -> Prop) (m : list entry) (will : bool) (sm : submode) : Prop := {
+  so_nd : nodup_refs m = true;
+  so_38 : lookup_prop m UserProperty = None;
+  so_11 : lookup_prop m SubscriptionID = None;
+  so_ids : map_ids_defined m = true;
+  so_bool : bool_table where_ m will = true;
+  so_ps : forall ps, okps ps -> Forall (prop_ok m will sm) ps /\ NoDup (keyed_ids ps)
+}.
+
+Lemma sect_ok_std where_ m will sm :
+  table_ok where_ m will sm = true -> nodup_refs m = true -> lookup_prop m UserProperty = None ->
+  lookup_prop m SubscriptionID = None -> map_ids_defined m = true -> bool_table where_ m will = true ->
+  sect_ok where_ (sprops_ok where_) m will sm.
 Proof.
-  intros Hnd H38 H11 Hok Hdup Hinv Hw HR d j steps Hj _ [pre [Hd L]]. subst pos.
-  destruct (getany_cut m will sm ps a pre j steps d Hnd H38 H11 Hok Hdup Hinv Hw HR Hj Hd) as [s' [E He]].
-  apply (errs_step (DGetAny m will sm) P _ s'); [exact E|exact He].
+  intros Ht Hnd H38 H11 Hids Hb. split; try assumption.
+  intros ps Hps. split; [apply (sprops_prop_ok where_); assumption|apply (sprops_keyed where_); exact Hps].
 Qed.
+
+Section SectionLinks.
+  Variables (where_ : N) (okps : list aprop -> Prop) (m : list entry) (will : bool) (sm : submode).
+  Hypothesis Hso : sect_ok where_ okps m will sm.
+  Variable a : pkt.
+  Hypothesis Hbin : forall id r w, lookup_prop m id = Some (r, w) -> w = Bin -> valS (getf r a) = [].
+  Hypothesis Hw : will = true -> hasWill a = true.
+
+  Lemma link_getany_step ps pos P : okps ps -> len (e_props_raw ps) < 268435456 ->
+    step_ok (DGetAny m will sm :: P) a pos (e_props ps) P (apply_props m will sm ps a).
+  Proof.
+    intros Hps HR d rest steps _ Hat. destruct (so_ps _ _ _ _ _ Hso ps Hps) as [Hok Hdup].
+    destruct (dgetany_spec_at m will sm ps a d pos rest steps (so_nd _ _ _ _ _ Hso) (so_38 _ _ _ _ _ Hso)
+                (fun _ => so_11 _ _ _ _ _ Hso) Hok Hdup (fun ap _ _ r w Hl Hb => Hbin _ r w Hl Hb) Hw HR Hat) as [st [D _]].
+    exists st. apply run_dec_cons. exact D.
+  Qed.
+
+  Lemma link_getany_cut ps pos P : okps ps -> len (e_props_raw ps) < 268435456 ->
+    cut_ok (DGetAny m will sm :: P) a pos (e_props ps) (interior (e_props ps)).
+  Proof.
+    intros Hps HR d j steps Hj _ [pre [Hd L]]. subst pos. destruct (so_ps _ _ _ _ _ Hso ps Hps) as [Hok Hdup].
+    destruct (getany_cut m will sm ps a pre j steps d (so_nd _ _ _ _ _ Hso) (so_38 _ _ _ _ _ Hso)
+                (fun _ => so_11 _ _ _ _ _ Hso) Hok Hdup (fun ap _ _ r w Hl Hb => Hbin _ r w Hl Hb) Hw HR Hj Hd) as [s' [E He]].
+    apply (errs_step (DGetAny m will sm) P _ s'); [exact E|exact He].
+  Qed.
+
+  Lemma bool_lookup id : is_bool_prop id = true -> allowed where_ id = true ->
+    exists r, lookup_prop m id = Some (r, WBool) /\ match r with M _ => True | W _ => will = true end.
+  Proof.
+    intros Hb Ha. pose proof (so_bool _ _ _ _ _ Hso) as T. unfold bool_table in T. rewrite forallb_forall in T.
+    specialize (T id (is_bool_cases id Hb)). rewrite Ha in T. cbn [negb orb] in T.
+    destruct (lookup_prop m id) as [[r w]|]; [|discriminate]. destruct w; try discriminate.
+    exists r. split; [reflexivity|]. destruct r; [exact I|exact T].
+  Qed.
+
+  Lemma link_getany_poison pos P : poison_ok (DGetAny m will sm :: P) a pos (bad_section where_ okps).
+  Proof.
+    intros d bad rest steps HK [pre [Hd L]]. subst pos.
+    destruct HK as [[x [y [z [e [-> [Hx [Hy [Hz He]]]]]]]]|[L [ps1 [t [-> [HL [Hlt [Hps Hnext]]]]]]]].
+    - cbn [app] in Hd.
+      assert (Hrej : rejected (dec_vb (x :: y :: z :: e :: rest))).
+      { destruct rest as [|q rest]; [|apply dec_vb_five; assumption].
+        apply dec_vb_all_cont. repeat (apply Forall_cons; [assumption|]). apply Forall_nil. }
+      destruct (getany_bad_len m will sm a pre steps d (x :: y :: z :: e :: rest) ltac:(discriminate) Hrej Hd) as [s' [E He']].
+      apply (errs_step (DGetAny m will sm) P _ s'); [exact E|exact He'].
+    - destruct (so_ps _ _ _ _ _ Hso ps1 Hps) as [Hok Hdup].
+      rewrite (e_var_enc_vb L HL) in Hd. rewrite <- !app_assoc in Hd.
+      destruct (getany_poison m will sm ps1 a pre L (t ++ rest) steps d (so_nd _ _ _ _ _ Hso) (so_38 _ _ _ _ _ Hso)
+                  (fun _ => so_11 _ _ _ _ _ Hso) Hok Hdup (fun ap _ _ r w Hl Hb => Hbin _ r w Hl Hb) Hw HL Hlt Hd)
+        as [s' [E He]].
+      2:{ apply (errs_step (DGetAny m will sm) P _ s'); [exact E|exact He]. }
+      intros fuel id0 acc' steps' Hfuel Hw'.
+      set (pre2 := (pre ++ enc_vb L) ++ e_props_raw ps1).
+      assert (Hd2 : d = pre2 ++ t ++ rest) by (unfold pre2; rewrite Hd, <- !app_assoc; reflexivity).
+      assert (Hend : N.of_nat (length pre2) < N.of_nat (length (pre ++ enc_vb L)) + L).
+      { unfold pre2. rewrite app_length. unfold len in Hlt. lia. }
+      destruct Hnext as [[u [r [-> [Hu Hty]]]]|[[id [b [r [-> [Hb [Ha Hb2]]]]]]|[x [y [z [e [r [-> [Hx [Hy [Hz He]]]]]]]]]]].
+      + apply (prop_bad_unknown m will sm _ fuel id0 acc' d pre2 steps' u (r ++ rest)); try assumption.
+        exact (so_ids _ _ _ _ _ Hso).
+      + destruct (bool_lookup id Hb Ha) as [rf [Hl Hlive]].
+        assert (Hid : id < 256 /\ id <> 11).
+        { pose proof (is_bool_cases id Hb) as Hin. unfold bool_ids in Hin. cbn [In] in Hin.
+          repeat (destruct Hin as [<-|Hin]; [split; [reflexivity|discriminate]|]). contradiction. }
+        apply (prop_bad_bool m will sm _ fuel id0 acc' d pre2 steps' id rf b (r ++ rest)); try assumption; try tauto.
+        destruct rf; [exact I|apply Hw'; exact Hlive].
+      + apply (prop_bad_subid m will sm _ fuel id0 acc' d pre2 steps' x y z e (r ++ rest)); try assumption.
+        exact (so_11 _ _ _ _ _ Hso).
+  Qed.
+
+  Lemma link_getany_fails ps pos P : okps ps -> len (e_props_raw ps) < 268435456 ->
+    fails_ok (DGetAny m will sm :: P) a pos (sect where_ okps ps).
+  Proof. intros Hps HR. apply fails_of; [apply link_getany_cut; assumption|apply link_getany_poison]. Qed.
+End SectionLinks.
 
 (* a conditional whose condition holds opens into its body *)
 Lemma link_if c ds P a pos :
@@ -420,31 +719,6 @@ Proof.
   rewrite (Hc d rest steps Hne Hat). reflexivity.
 Qed.
 
-(* ------------------------------------------------------------------ *)
-(* CONNACK *)
-Definition fresh_of (b0 : N) : pkt := setf (M F_fixed) (VN b0) zero_pkt.
-
-Ltac link_get r w v acc :=
-  eapply (cc_cons _ acc _ (encode w v) _ _ (setf r (canon w v) acc));
-  [apply link_get_cut|apply link_get_step|]; try discriminate; try exact I; try (cbn [valid_val valN valS]; lia).
-
-Theorem chain_connack fl rc ps :
-  fl <= 1 -> rc < 256 -> sprops_ok 2 ps -> len (e_props_raw ps) < 268435456 ->
-  cchain dec_connack (fresh_of 32) 0
-    [(e_u8 fl, interior (e_u8 fl)); (e_u8 rc, interior (e_u8 rc)); (e_props ps, interior (e_props ps))].
-Proof.
-  intros Hfl Hrc Hps HR.
-  pose proof (sprops_prop_ok 2 connack_map false NoSub ps table_connack Hps) as Hok.
-  pose proof (sprops_keyed 2 ps Hps) as Hdup.
-  unfold dec_connack.
-  change (e_u8 fl) with (encode U8 (VN fl)). change (e_u8 rc) with (encode U8 (VN rc)).
-  link_get (M F_flags) U8 (VN fl) (fresh_of 32).
-  link_get (M F_reasonCode) U8 (VN rc) (setf (M F_flags) (canon U8 (VN fl)) (fresh_of 32)).
-  apply cc_last. apply link_getany_cut; try assumption; try reflexivity; try discriminate.
-  intros ap _ _ r w Hl _. apply lookup_in_map in Hl. unfold connack_map in Hl. cbn [In] in Hl.
-  repeat (destruct Hl as [Hl|Hl]; [injection Hl as _ <- _; reflexivity|]). contradiction.
-Qed.
-
 (* conditions on the length of the data: true while something is left *)
 Lemma cond_lengt n a : forall d rest steps, rest <> [] -> at_pos d n rest ->
   eval_cond (CDataLenGt n) a (env_of (mk_state a d n steps)) = true.
@@ -460,20 +734,62 @@ Proof.
   destruct rest as [|x r]; [congruence|]. apply (at_pos_more _ _ _ _ Hat).
 Qed.
 
-Lemma cut_none P a pos seg : cut_ok P a pos seg nocut.
-Proof. intros d j steps []. Qed.
+Definition fresh_of (b0 : N) : pkt := setf (M F_fixed) (VN b0) zero_pkt.
+
+Ltac link_get r w v acc :=
+  eapply (cc_cons _ acc _ (fld (encode w v)) _ (setf r (canon w v) acc));
+  [apply link_get_fails|apply link_get_step|]; try discriminate; try exact I; try (cbn [valid_val valN valS]; lia).
+
+(* the property tables of the library, place by place *)
+Lemma so_connack : sect_ok 2 (sprops_ok 2) connack_map false NoSub.
+Proof. apply sect_ok_std; vm_compute; reflexivity. Qed.
+Lemma so_ack t : In t [4; 5; 6; 7; 9; 11] -> sect_ok t (sprops_ok t) ack_map false NoSub.
+Proof. intros H. cbn [In] in H. destruct H as [<-|[<-|[<-|[<-|[<-|[<-|[]]]]]]]; apply sect_ok_std; vm_compute; reflexivity. Qed.
+Lemma so_auth : sect_ok 15 (sprops_ok 15) auth_map false NoSub.
+Proof. apply sect_ok_std; vm_compute; reflexivity. Qed.
+Lemma so_publish : sect_ok 3 (sprops_ok 3) publish_map false AddSub.
+Proof. apply sect_ok_std; vm_compute; reflexivity. Qed.
+Lemma so_subscribe : sect_ok 8 (sprops_ok 8) [] false SubOpt.
+Proof. apply sect_ok_std; vm_compute; reflexivity. Qed.
+Lemma so_unsubscribe : sect_ok 10 (sprops_ok 10) [] false NoSub.
+Proof. apply sect_ok_std; vm_compute; reflexivity. Qed.
+Lemma so_connect : sect_ok 1 (sprops_ok 1) connect_map false NoSub.
+Proof. apply sect_ok_std; vm_compute; reflexivity. Qed.
+Lemma so_will : sect_ok 100 (sprops_ok 100) will_map true NoSub.
+Proof. apply sect_ok_std; vm_compute; reflexivity. Qed.
+(* DISCONNECT: the library knows only user properties there (D13) *)
+Definition disc_ps (ps : list aprop) : Prop := sprops_ok 14 ps /\ Forall (fun ap => ap_id ap = 38) ps.
+Lemma so_disconnect : sect_ok 14 disc_ps [] false NoSub.
+Proof.
+  split; try reflexivity. intros ps [Hps H38].
+  split; [apply disc_props_ok; assumption|apply (sprops_keyed 14); exact Hps].
+Qed.
+
+(* ------------------------------------------------------------------ *)
+(* CONNACK *)
+Theorem chain_connack fl rc ps :
+  fl <= 1 -> rc < 256 -> sprops_ok 2 ps -> len (e_props_raw ps) < 268435456 ->
+  cchain dec_connack (fresh_of 32) 0 [fld (e_u8 fl); fld (e_u8 rc); sect 2 (sprops_ok 2) ps].
+Proof.
+  intros Hfl Hrc Hps HR. unfold dec_connack.
+  change (e_u8 fl) with (encode U8 (VN fl)). change (e_u8 rc) with (encode U8 (VN rc)).
+  link_get (M F_flags) U8 (VN fl) (fresh_of 32).
+  link_get (M F_reasonCode) U8 (VN rc) (setf (M F_flags) (canon U8 (VN fl)) (fresh_of 32)).
+  apply cc_last. apply (link_getany_fails _ _ _ _ _ so_connack); try assumption; try discriminate.
+  intros id r w Hl _. apply lookup_in_map in Hl. unfold connack_map in Hl. cbn [In] in Hl.
+  repeat (destruct Hl as [Hl|Hl]; [injection Hl as _ <- _; reflexivity|]). contradiction.
+Qed.
 
 (* ------------------------------------------------------------------ *)
 (* PUBACK, PUBREC, PUBREL, PUBCOMP *)
-Definition ack_fields (pid form rc : N) (ps : list aprop) : list field :=
-  (e_u16 pid, interior (e_u16 pid)) ::
+Definition ack_fields (t pid form rc : N) (ps : list aprop) : list field :=
+  fld (e_u16 pid) ::
   (if form =? 2 then [] else
-     (e_u8 rc, interior (e_u8 rc)) ::
-     (if form =? 3 then [] else [(e_props ps, interior (e_props ps))])).
+     fld (e_u8 rc) :: (if form =? 3 then [] else [sect t (sprops_ok t) ps])).
 
 Theorem chain_ack k pid form rc ps : is_ack k = true ->
   pid < 65536 -> rc < 256 -> ack_frame_ok form rc ps (kind_nibble k) ->
-  cchain (dec_of k) (fresh_of (ctor_fixed k)) 0 (ack_fields pid form rc ps).
+  cchain (dec_of k) (fresh_of (ctor_fixed k)) 0 (ack_fields (kind_nibble k) pid form rc ps).
 Proof.
   intros Hk Hpid Hrc Hform.
   assert (Hdec_of : dec_of k = dec_ack) by (destruct k; try discriminate; reflexivity).
@@ -486,109 +802,105 @@ Proof.
                   (form = 4 /\ sprops_ok (kind_nibble k) ps /\ len (e_props_raw ps) < 268435456)).
   { unfold ack_frame_ok in Hform. destruct form as [|[[[]|[]|]|[[]|[]|]|]]; try contradiction; tauto. }
   destruct Hcase as [[-> [-> ->]]|[[-> ->]|[-> [Hps HR]]]]; cbn [N.eqb Pos.eqb].
-  - apply cc_last. apply link_get_cut; try discriminate; try exact I. exact Hpid.
+  - apply cc_last. apply link_get_fails; try discriminate; try exact I. exact Hpid.
   - link_get (M F_packetID) U16 (VN pid) fr0. fold a1.
     apply (cc_silent _ _ _ ([DGet (M F_reasonCode) U8; DGetAny ack_map false NoSub] ++ []) a1);
       [apply link_if; apply cond_lengt|].
-    apply cc_last. apply link_get_cut; try discriminate; try exact I. exact Hrc.
-  - assert (Ht : table_ok (kind_nibble k) ack_map false NoSub = true)
-      by (apply table_ack; destruct k; try discriminate Hk; cbn; tauto).
-    pose proof (sprops_prop_ok _ ack_map false NoSub ps Ht Hps) as Hok.
-    pose proof (sprops_keyed _ ps Hps) as Hdup.
+    apply cc_last. apply link_get_fails; try discriminate; try exact I. exact Hrc.
+  - assert (Hso : sect_ok (kind_nibble k) (sprops_ok (kind_nibble k)) ack_map false NoSub)
+      by (apply so_ack; destruct k; try discriminate Hk; cbn; tauto).
     link_get (M F_packetID) U16 (VN pid) fr0. fold a1.
     apply (cc_silent _ _ _ ([DGet (M F_reasonCode) U8; DGetAny ack_map false NoSub] ++ []) a1);
       [apply link_if; apply cond_lengt|].
     cbn [app]. link_get (M F_reasonCode) U8 (VN rc) a1. fold a2.
-    apply cc_last. apply link_getany_cut; try assumption; try reflexivity; try discriminate.
-    intros ap _ _ r w Hl _. apply lookup_in_map in Hl. unfold ack_map in Hl. cbn [In] in Hl.
+    apply cc_last. apply (link_getany_fails _ _ _ _ _ Hso); try assumption; try discriminate.
+    intros id r w Hl _. apply lookup_in_map in Hl. unfold ack_map in Hl. cbn [In] in Hl.
     destruct Hl as [Hl|[]]. injection Hl as _ <- _. reflexivity.
 Qed.
 
 (* ------------------------------------------------------------------ *)
 (* DISCONNECT, AUTH *)
-Definition disc_fields (form rc : N) (ps : list aprop) : list field :=
+Definition disc_fields (t form rc : N) (ps : list aprop) : list field :=
   if form =? 0 then [] else
-    (e_u8 rc, interior (e_u8 rc)) :: (if form =? 1 then [] else [(e_props ps, interior (e_props ps))]).
+    fld (e_u8 rc) :: (if form =? 1 then [] else
+                        [sect t (if t =? 14 then disc_ps else sprops_ok t) ps]).
 
-Lemma chain_disc_gen k m form rc ps :
+Lemma chain_disc_gen k where_ okps m form rc ps :
   dec_of k = [DGet (M F_reasonCode) U8; DGetAny m false NoSub] ->
-  nodup_refs m = true -> lookup_prop m UserProperty = None ->
+  sect_ok where_ okps m false NoSub ->
   (forall id r w, lookup_prop m id = Some (r, w) ->
      valS (getf r (setf (M F_reasonCode) (canon U8 (VN rc)) (fresh_of (ctor_fixed k)))) = []) ->
   rc < 256 ->
   match form with
   | 0 => True
   | 1 => True
-  | 2 => Forall (prop_ok m false NoSub) ps /\ NoDup (keyed_ids ps) /\ len (e_props_raw ps) < 268435456
+  | 2 => okps ps /\ len (e_props_raw ps) < 268435456
   | _ => False
   end ->
-  cchain (dec_of k) (fresh_of (ctor_fixed k)) 0 (disc_fields form rc ps).
+  cchain (dec_of k) (fresh_of (ctor_fixed k)) 0
+         (if form =? 0 then [] else fld (e_u8 rc) :: (if form =? 1 then [] else [sect where_ okps ps])).
 Proof.
-  intros Hdec Hnd H38 Hz Hrc Hform. rewrite Hdec. unfold disc_fields.
+  intros Hdec Hso Hz Hrc Hform. rewrite Hdec.
   change (e_u8 rc) with (encode U8 (VN rc)).
   set (fr0 := fresh_of (ctor_fixed k)) in *.
-  assert (Hcase : form = 0 \/ form = 1 \/
-                  (form = 2 /\ Forall (prop_ok m false NoSub) ps /\ NoDup (keyed_ids ps)
-                   /\ len (e_props_raw ps) < 268435456)).
+  assert (Hcase : form = 0 \/ form = 1 \/ (form = 2 /\ okps ps /\ len (e_props_raw ps) < 268435456)).
   { destruct form as [|[[]|[]|]]; try contradiction; tauto. }
-  destruct Hcase as [->|[->|[-> [Hok [Hdup HR]]]]]; cbn [N.eqb Pos.eqb].
+  destruct Hcase as [->|[->|[-> [Hps HR]]]]; cbn [N.eqb Pos.eqb].
   - apply cc_nil.
-  - apply cc_last. apply link_get_cut; try discriminate; try exact I. exact Hrc.
+  - apply cc_last. apply link_get_fails; try discriminate; try exact I. exact Hrc.
   - link_get (M F_reasonCode) U8 (VN rc) fr0.
-    apply cc_last. apply link_getany_cut; try assumption; try discriminate.
-    intros ap _ _ r w Hl _. apply (Hz _ _ _ Hl).
+    apply cc_last. apply (link_getany_fails _ _ _ _ _ Hso); try assumption; try discriminate.
+    intros id r w Hl _. apply (Hz _ _ _ Hl).
 Qed.
 
 Theorem chain_disconnect form rc ps : rc < 256 -> disc_frame_ok 14 form rc ps ->
-  cchain (dec_of KDisconnect) (fresh_of (ctor_fixed KDisconnect)) 0 (disc_fields form rc ps).
+  cchain (dec_of KDisconnect) (fresh_of (ctor_fixed KDisconnect)) 0 (disc_fields 14 form rc ps).
 Proof.
-  intros Hrc Hform. apply (chain_disc_gen KDisconnect []); try reflexivity; try exact Hrc.
+  intros Hrc Hform. unfold disc_fields. cbn [N.eqb Pos.eqb].
+  apply (chain_disc_gen KDisconnect 14 disc_ps []); try reflexivity; try exact Hrc.
+  - exact so_disconnect.
   - intros id r w Hl. discriminate Hl.
   - destruct (disc_form_cases _ _ _ _ Hform) as [[-> _]|[[-> _]|[-> [Hps [HR H38]]]]]; try exact I.
-    split; [apply disc_props_ok; [exact Hps|apply H38; reflexivity]|].
-    split; [apply (sprops_keyed 14); exact Hps|exact HR].
+    split; [split; [exact Hps|apply H38; reflexivity]|exact HR].
 Qed.
 
 Theorem chain_auth form rc ps : rc < 256 -> disc_frame_ok 15 form rc ps ->
-  cchain (dec_of KAuth) (fresh_of (ctor_fixed KAuth)) 0 (disc_fields form rc ps).
+  cchain (dec_of KAuth) (fresh_of (ctor_fixed KAuth)) 0 (disc_fields 15 form rc ps).
 Proof.
-  intros Hrc Hform. apply (chain_disc_gen KAuth auth_map); try reflexivity; try exact Hrc.
+  intros Hrc Hform. unfold disc_fields. cbn [N.eqb Pos.eqb].
+  apply (chain_disc_gen KAuth 15 (sprops_ok 15) auth_map); try reflexivity; try exact Hrc.
+  - exact so_auth.
   - intros id r w Hl. apply lookup_in_map in Hl. unfold auth_map in Hl. cbn [In] in Hl.
     repeat (destruct Hl as [Hl|Hl]; [injection Hl as _ <- _; reflexivity|]). contradiction.
   - destruct (disc_form_cases _ _ _ _ Hform) as [[-> _]|[[-> _]|[-> [Hps [HR _]]]]]; try exact I.
-    split; [apply (sprops_prop_ok 15); [exact table_auth|exact Hps]|].
-    split; [apply (sprops_keyed 15); exact Hps|exact HR].
+    split; assumption.
 Qed.
 
 (* ------------------------------------------------------------------ *)
 (* SUBACK, UNSUBACK: the reason codes are single bytes *)
-Definition suback_fields (pid : N) (ps : list aprop) (codes : list N) : list field :=
-  [(e_u16 pid, interior (e_u16 pid)); (e_props ps, interior (e_props ps)); (concat (map e_u8 codes), nocut)].
+Definition suback_fields (t pid : N) (ps : list aprop) (codes : list N) : list field :=
+  [fld (e_u16 pid); sect t (sprops_ok t) ps; raw_fld (concat (map e_u8 codes))].
 
 Theorem chain_suback k pid ps codes : is_suback k = true ->
   pid < 65536 -> sprops_ok (kind_nibble k) ps -> len (e_props_raw ps) < 268435456 ->
-  cchain (dec_of k) (fresh_of (ctor_fixed k)) 0 (suback_fields pid ps codes).
+  cchain (dec_of k) (fresh_of (ctor_fixed k)) 0 (suback_fields (kind_nibble k) pid ps codes).
 Proof.
   intros Hk Hpid Hps HR.
   assert (Hdec_of : dec_of k = dec_suback) by (destruct k; try discriminate; reflexivity).
   rewrite Hdec_of. unfold dec_suback, suback_fields.
-  assert (Ht : table_ok (kind_nibble k) ack_map false NoSub = true)
-    by (apply table_ack; destruct k; try discriminate Hk; cbn; tauto).
-  pose proof (sprops_prop_ok _ ack_map false NoSub ps Ht Hps) as Hok.
-  pose proof (sprops_keyed _ ps Hps) as Hdup.
+  assert (Hso : sect_ok (kind_nibble k) (sprops_ok (kind_nibble k)) ack_map false NoSub)
+    by (apply so_ack; destruct k; try discriminate Hk; cbn; tauto).
   set (fr0 := fresh_of (ctor_fixed k)).
   change (e_u16 pid) with (encode U16 (VN pid)).
   link_get (M F_packetID) U16 (VN pid) fr0.
-  assert (Hinv : forall ap, In ap ps -> keyed ap = true -> forall r w,
-            lookup_prop ack_map (ap_id ap) = Some (r, w) -> w = Bin ->
+  assert (Hbin : forall id r w, lookup_prop ack_map id = Some (r, w) -> w = Bin ->
             valS (getf r (setf (M F_packetID) (canon U16 (VN pid)) fr0)) = []).
-  { intros ap _ _ r w Hl _. apply lookup_in_map in Hl. unfold ack_map in Hl. cbn [In] in Hl.
+  { intros id r w Hl _. apply lookup_in_map in Hl. unfold ack_map in Hl. cbn [In] in Hl.
     destruct Hl as [Hl|[]]. injection Hl as _ <- _. reflexivity. }
-  eapply cc_cons; [apply link_getany_cut|apply link_getany_step|]; try assumption; try reflexivity;
-    try discriminate; try apply ack_map_ok.
-  apply cc_last. apply cut_none.
+  eapply cc_cons; [apply (link_getany_fails _ _ _ _ _ Hso _ Hbin)|apply (link_getany_step _ _ _ _ _ Hso _ Hbin)|];
+    try assumption; try discriminate.
+  apply cc_last. apply fails_of; [apply cut_none|apply poison_none].
 Qed.
-
 (* ------------------------------------------------------------------ *)
 (* topic filter lists: a cut strictly inside one of the strings *)
 Lemma get_val_err w old s : derr s <> None -> exists s', get_val w old s = GNo s' /\ derr s' <> None /\ dp s' = dp s.
@@ -725,9 +1037,11 @@ Proof.
   apply (errs_step DUnsubFilterLoop P _ s'); [exact E|exact He].
 Qed.
 
+Definition ufilters_fld (fs : list (list byte)) : field :=
+  {| f_seg := concat (map e_str fs); f_J := in_ufilter fs; f_K := nopoison |}.
+
 Definition unsubscribe_fields (pid : N) (ps : list aprop) (fs : list (list byte)) : list field :=
-  [(e_u16 pid, interior (e_u16 pid)); (e_props ps, interior (e_props ps));
-   (concat (map e_str fs), in_ufilter fs)].
+  [fld (e_u16 pid); sect 10 (sprops_ok 10) ps; ufilters_fld fs].
 
 Theorem chain_unsubscribe pid ps fs :
   pid < 65536 -> sprops_ok 10 ps -> len (e_props_raw ps) < 268435456 ->
@@ -735,14 +1049,14 @@ Theorem chain_unsubscribe pid ps fs :
   cchain (dec_of KUnsubscribe) (fresh_of (ctor_fixed KUnsubscribe)) 0 (unsubscribe_fields pid ps fs).
 Proof.
   intros Hpid Hps HR Hfs. cbn [dec_of]. unfold dec_unsubscribe, unsubscribe_fields.
-  pose proof (sprops_prop_ok _ [] false NoSub ps table_unsubscribe Hps) as Hok.
-  pose proof (sprops_keyed _ ps Hps) as Hdup.
   set (fr0 := fresh_of (ctor_fixed KUnsubscribe)).
   change (e_u16 pid) with (encode U16 (VN pid)).
   link_get (M F_packetID) U16 (VN pid) fr0.
-  eapply cc_cons; [apply link_getany_cut|apply link_getany_step|]; try assumption; try reflexivity;
-    try discriminate.
-  apply cc_last. apply link_ufilters_cut. exact Hfs.
+  assert (Hbin : forall id r w, lookup_prop [] id = Some (r, w) -> w = Bin ->
+            valS (getf r (setf (M F_packetID) (canon U16 (VN pid)) fr0)) = []) by (intros id r w Hl; discriminate Hl).
+  eapply cc_cons; [apply (link_getany_fails _ _ _ _ _ so_unsubscribe _ Hbin)|apply (link_getany_step _ _ _ _ _ so_unsubscribe _ Hbin)|];
+    try assumption; try discriminate.
+  apply cc_last. apply fails_of; [apply link_ufilters_cut; exact Hfs|apply poison_none].
 Qed.
 
 (* ------------------------------------------------------------------ *)
@@ -775,9 +1089,11 @@ Proof.
   apply (errs_step DFilterLoop P _ s'); [exact E|exact He].
 Qed.
 
+Definition filters_fld (fs : list (list byte * N)) : field :=
+  {| f_seg := concat (map e_filter fs); f_J := in_filter fs; f_K := nopoison |}.
+
 Definition subscribe_fields (pid : N) (ps : list aprop) (fs : list (list byte * N)) : list field :=
-  [(e_u16 pid, interior (e_u16 pid)); (e_props ps, interior (e_props ps));
-   (concat (map e_filter fs), in_filter fs)].
+  [fld (e_u16 pid); sect 8 (sprops_ok 8) ps; filters_fld fs].
 
 Theorem chain_subscribe pid ps fs :
   pid < 65536 -> sprops_ok 8 ps -> len (e_props_raw ps) < 268435456 ->
@@ -785,14 +1101,14 @@ Theorem chain_subscribe pid ps fs :
   cchain (dec_of KSubscribe) (fresh_of (ctor_fixed KSubscribe)) 0 (subscribe_fields pid ps fs).
 Proof.
   intros Hpid Hps HR Hfs. cbn [dec_of]. unfold dec_subscribe, subscribe_fields.
-  pose proof (sprops_prop_ok _ [] false SubOpt ps table_subscribe Hps) as Hok.
-  pose proof (sprops_keyed _ ps Hps) as Hdup.
   set (fr0 := fresh_of (ctor_fixed KSubscribe)).
   change (e_u16 pid) with (encode U16 (VN pid)).
   link_get (M F_packetID) U16 (VN pid) fr0.
-  eapply cc_cons; [apply link_getany_cut|apply link_getany_step|]; try assumption; try reflexivity;
-    try discriminate.
-  apply cc_last. apply link_filters_cut. exact Hfs.
+  assert (Hbin : forall id r w, lookup_prop [] id = Some (r, w) -> w = Bin ->
+            valS (getf r (setf (M F_packetID) (canon U16 (VN pid)) fr0)) = []) by (intros id r w Hl; discriminate Hl).
+  eapply cc_cons; [apply (link_getany_fails _ _ _ _ _ so_subscribe _ Hbin)|apply (link_getany_step _ _ _ _ _ so_subscribe _ Hbin)|];
+    try assumption; try discriminate.
+  apply cc_last. apply fails_of; [apply link_filters_cut; exact Hfs|apply poison_none].
 Qed.
 
 (* ------------------------------------------------------------------ *)
@@ -822,11 +1138,16 @@ Proof.
   cbn [run_dec]. rewrite E. apply run_dec_errs. exact He.
 Qed.
 
+Lemma link_ifget_fails c r w v a pos P (cv : bool) :
+  (forall e, eval_cond c a e = cv) ->
+  w <> Raw -> valid_val w v -> ref_live a r ->
+  fails_ok (DIf c [DGet r w] :: P) a pos (fld (if cv then encode w v else [])).
+Proof. intros Hc Hw Hv Hl. apply fails_of; [apply link_ifget_cut; assumption|apply poison_none]. Qed.
+
 (* ------------------------------------------------------------------ *)
 (* PUBLISH: the payload has no inner structure *)
 Definition publish_fields (topic : list byte) (pid : option N) (ps : list aprop) (payload : list byte) : list field :=
-  let PID := match pid with Some i => e_u16 i | None => [] end in
-  [(e_str topic, interior (e_str topic)); (PID, interior PID); (e_props ps, interior (e_props ps)); (payload, nocut)].
+  [fld (e_str topic); fld (match pid with Some i => e_u16 i | None => [] end); sect 3 (sprops_ok 3) ps; raw_fld payload].
 
 Theorem chain_publish fl topic pid ps payload :
   fl < 16 -> (fl / 2) mod 4 <> 3 -> len topic < 65536 ->
@@ -837,8 +1158,6 @@ Proof.
   intros Hfl Hq Htopic Hpid Hps HR.
   destruct (publish_flag_bits fl Hfl Hq) as [Bdup [Bret [Bqos [Bc Brange]]]].
   set (fx := 48 + fl) in *. set (fr0 := fresh_of fx).
-  pose proof (sprops_prop_ok _ publish_map false AddSub ps table_publish Hps) as Hok.
-  pose proof (sprops_keyed _ ps Hps) as Hdup.
   set (a1 := setf (M F_topicName) (canon Bin (VS topic)) fr0).
   set (c := eval_cond CQoS12 a1 no_env).
   assert (Ec : c = negb ((fl / 2) mod 4 =? 0)) by exact Bc.
@@ -849,19 +1168,20 @@ Proof.
     - rewrite Hpid. reflexivity. }
   assert (Hpidv : valid_val U16 (VN pidv)).
   { unfold pidv. cbn [valid_val valN]. destruct pid as [i|]; [destruct Hpid; assumption|lia]. }
-  cbn [dec_of]. unfold dec_publish, publish_fields. cbv zeta. rewrite EPID, (e_str_enc_bin topic Htopic).
+  cbn [dec_of]. unfold dec_publish, publish_fields. rewrite EPID, (e_str_enc_bin topic Htopic).
   change (enc_bin topic) with (encode Bin (VS topic)).
   link_get (M F_topicName) Bin (VS topic) fr0.
   { intros _. right. reflexivity. }
   fold a1.
-  eapply cc_cons; [apply link_ifget_cut|apply link_ifget_step|]; try (intros e; reflexivity);
+  eapply cc_cons; [apply link_ifget_fails|apply link_ifget_step|]; try (intros e; reflexivity);
     try discriminate; try exact I; try exact Hpidv.
   fold c. set (a2 := if c then setf (M F_packetID) (canon U16 (VN pidv)) a1 else a1).
-  eapply cc_cons; [apply link_getany_cut|apply link_getany_step|]; try assumption; try reflexivity;
-    try discriminate.
-  3: apply cc_last; apply cut_none.
-  all: intros ap _ _ r w Hl _; apply lookup_in_map in Hl; unfold publish_map in Hl; cbn [In] in Hl;
-    unfold a2; repeat (destruct Hl as [Hl|Hl]; [injection Hl as _ <- _; destruct c; reflexivity|]); contradiction.
+  assert (Hbin : forall id r w, lookup_prop publish_map id = Some (r, w) -> w = Bin -> valS (getf r a2) = []).
+  { intros id r w Hl _. apply lookup_in_map in Hl. unfold publish_map in Hl. cbn [In] in Hl.
+    unfold a2. repeat (destruct Hl as [Hl|Hl]; [injection Hl as _ <- _; destruct c; reflexivity|]). contradiction. }
+  eapply cc_cons; [apply (link_getany_fails _ _ _ _ _ so_publish _ Hbin)|apply (link_getany_step _ _ _ _ _ so_publish _ Hbin)|];
+    try assumption; try discriminate.
+  apply cc_last. apply fails_of; [apply cut_none|apply poison_none].
 Qed.
 
 (* ------------------------------------------------------------------ *)
@@ -883,6 +1203,7 @@ Lemma e_opt_if o : opt_ok o -> e_opt o = if is_some o then encode Bin (VS (opt_b
 Proof. destruct o as [s|]; cbn [e_opt is_some opt_bytes opt_ok encode valS]; intros H; [apply e_str_enc_bin; exact H|reflexivity]. Qed.
 
 (* user name and password, after whatever came before *)
+(* user name and password, after whatever came before *)
 Lemma chain_userpass flags aw pos user pass :
   getN (M F_flags) aw = flags -> flags < 256 ->
   valS (getf (M F_username) aw) = [] -> valS (getf (M F_password) aw) = [] ->
@@ -890,7 +1211,7 @@ Lemma chain_userpass flags aw pos user pass :
   opt_ok pass -> N.testbit flags 6 = is_some pass ->
   cchain [DIf (CHas (M F_flags) UsernameFlag) [DGet (M F_username) Bin];
           DIf (CHas (M F_flags) PasswordFlag) [DGet (M F_password) Bin]] aw pos
-         [(e_opt user, interior (e_opt user)); (e_opt pass, interior (e_opt pass))].
+         [fld (e_opt user); fld (e_opt pass)].
 Proof.
   intros Hfl Hflags Hzu Hzp Hus Hub Hpa Hpb.
   destruct (connect_flag_bits flags Hflags) as [_ [Bu [Bp _]]].
@@ -899,7 +1220,7 @@ Proof.
   assert (Vp : valid_val Bin (VS (opt_bytes pass))) by (destruct pass; [exact Hpa|reflexivity]).
   assert (Cu : forall e, eval_cond (CHas (M F_flags) UsernameFlag) aw e = is_some user).
   { intros e. cbn [eval_cond]. rewrite Hfl, Bu. exact Hub. }
-  eapply cc_cons; [apply (link_ifget_cut _ _ _ _ _ _ _ _ Cu)|apply (link_ifget_step _ _ _ _ _ _ _ _ Cu)|];
+  eapply cc_cons; [apply (link_ifget_fails _ _ _ _ _ _ _ _ Cu)|apply (link_ifget_step _ _ _ _ _ _ _ _ Cu)|];
     try discriminate; try exact I; try exact Vu.
   { intros _. right. exact Hzu. }
   set (au := if is_some user then setf (M F_username) (canon Bin (VS (opt_bytes user))) aw else aw).
@@ -907,16 +1228,14 @@ Proof.
   { intros e. cbn [eval_cond]. unfold au. destruct (is_some user).
     - unfold getN. rewrite getf_setf_other by reflexivity. fold (getN (M F_flags) aw). rewrite Hfl, Bp. exact Hpb.
     - rewrite Hfl, Bp. exact Hpb. }
-  apply cc_last. apply (link_ifget_cut _ _ _ _ _ _ _ _ Cp); try discriminate; try exact I; exact Vp.
+  apply cc_last. apply (link_ifget_fails _ _ _ _ _ _ _ _ Cp); try discriminate; try exact I; exact Vp.
 Qed.
-
-Definition fld (b : list byte) : field := (b, interior b).
 
 Definition connect_fields (flags ka : N) (ps : list aprop) (cid : list byte) (will : option awill)
            (user pass : option (list byte)) : list field :=
-  [fld mqtt_name; fld (e_u8 5); fld (e_u8 flags); fld (e_u16 ka); fld (e_props ps); fld (e_str cid)] ++
+  [fld mqtt_name; fld (e_u8 5); fld (e_u8 flags); fld (e_u16 ka); sect 1 (sprops_ok 1) ps; fld (e_str cid)] ++
   (match will with
-   | Some w => [fld (e_props (w_props w)); fld (e_str (w_topic w)); fld (e_str (w_payload w))]
+   | Some w => [sect 100 (sprops_ok 100) (w_props w); fld (e_str (w_topic w)); fld (e_str (w_payload w))]
    | None => [] end) ++
   [fld (e_opt user); fld (e_opt pass)].
 
@@ -926,8 +1245,6 @@ Theorem chain_connect flags ka ps cid will user pass :
 Proof.
   intros [Hfl Hwq Hka [Hps HR] Hcid Hwill [Hus Hub] [Hpa Hpb]].
   destruct (connect_flag_bits flags Hfl) as [Bw _].
-  pose proof (sprops_prop_ok _ connect_map false NoSub ps table_connect Hps) as Hok.
-  pose proof (sprops_keyed _ ps Hps) as Hdup.
   set (fr0 := fresh_of (ctor_fixed KConnect)).
   set (a1 := setf (M F_protocolName) (canon Bin (VS mqtt5)) fr0).
   set (a2 := setf (M F_protocolVersion) (canon U8 (VN 5)) a1).
@@ -935,7 +1252,7 @@ Proof.
   set (a4 := setf (M F_keepAlive) (canon U16 (VN ka)) a3).
   set (a5 := apply_props connect_map false NoSub ps a4).
   set (a6 := setf (M F_clientID) (canon Bin (VS cid)) a5).
-  cbn [dec_of]. unfold dec_connect, connect_fields, fld. cbn [app].
+  cbn [dec_of]. unfold dec_connect, connect_fields. cbn [app].
   rewrite mqtt_name_bin, (e_str_enc_bin cid Hcid).
   change (enc_bin mqtt5) with (encode Bin (VS mqtt5)). change (e_u8 5) with (encode U8 (VN 5)).
   change (e_u8 flags) with (encode U8 (VN flags)). change (e_u16 ka) with (encode U16 (VN ka)).
@@ -946,12 +1263,11 @@ Proof.
   fold a2. link_get (M F_flags) U8 (VN flags) a2.
   fold a3. link_get (M F_keepAlive) U16 (VN ka) a3.
   fold a4.
-  assert (Hinv4 : forall ap, In ap ps -> keyed ap = true -> forall r w,
-            lookup_prop connect_map (ap_id ap) = Some (r, w) -> w = Bin -> valS (getf r a4) = []).
-  { intros ap _ _ r w Hl _. apply lookup_in_map in Hl. unfold connect_map in Hl. cbn [In] in Hl.
+  assert (Hbin4 : forall id r w, lookup_prop connect_map id = Some (r, w) -> w = Bin -> valS (getf r a4) = []).
+  { intros id r w Hl _. apply lookup_in_map in Hl. unfold connect_map in Hl. cbn [In] in Hl.
     repeat (destruct Hl as [Hl|Hl]; [injection Hl as _ <- _; reflexivity|]). contradiction. }
-  eapply cc_cons; [apply link_getany_cut|apply link_getany_step|]; try assumption; try reflexivity;
-    try discriminate.
+  eapply cc_cons; [apply (link_getany_fails _ _ _ _ _ so_connect _ Hbin4)|apply (link_getany_step _ _ _ _ _ so_connect _ Hbin4)|];
+    try assumption; try discriminate.
   fold a5. link_get (M F_clientID) Bin (VS cid) a5.
   { intros _. right. unfold a5. getf_down2. reflexivity. }
   fold a6.
@@ -959,8 +1275,6 @@ Proof.
   { unfold getN, a6, a5. getf_down2. unfold a4. getf_down2. unfold a3. getf_down2. reflexivity. }
   destruct will as [w|].
   - destruct Hwill as [Hb2 [Hwps [HwR [Hwt Hwpl]]]].
-    pose proof (sprops_prop_ok _ will_map true NoSub _ table_will Hwps) as Hokw.
-    pose proof (sprops_keyed _ _ Hwps) as Hdupw.
     eapply cc_silent.
     { apply link_if. intros d rest steps _ _. cbn [eval_cond]. rewrite Hfl6, Bw. exact Hb2. }
     cbn [app]. eapply cc_silent; [apply link_willinit|].
@@ -968,14 +1282,13 @@ Proof.
     rewrite (e_str_enc_bin _ Hwt), (e_str_enc_bin _ Hwpl).
     set (wp := w_props w) in *. set (wtp := w_topic w) in *. set (wpl := w_payload w) in *.
     change (enc_bin wtp) with (encode Bin (VS wtp)). change (enc_bin wpl) with (encode Bin (VS wpl)).
-    assert (Hinv7 : forall ap, In ap wp -> keyed ap = true -> forall r w0,
-              lookup_prop will_map (ap_id ap) = Some (r, w0) -> w0 = Bin -> valS (getf r a7) = []).
-    { intros ap _ _ r w0 Hl Hb. apply lookup_in_map in Hl. unfold will_map in Hl. cbn [In] in Hl.
+    assert (Hbin7 : forall id r w0, lookup_prop will_map id = Some (r, w0) -> w0 = Bin -> valS (getf r a7) = []).
+    { intros id r w0 Hl Hb. apply lookup_in_map in Hl. unfold will_map in Hl. cbn [In] in Hl.
       destruct Hl as [Hl|Hl].
       - injection Hl as _ _ <-. discriminate Hb.
       - repeat (destruct Hl as [Hl|Hl]; [injection Hl as _ <- _; reflexivity|]). contradiction. }
-    eapply cc_cons; [apply link_getany_cut|apply link_getany_step|]; try assumption; try reflexivity;
-      try discriminate; try apply will_map_ok.
+    eapply cc_cons; [apply (link_getany_fails _ _ _ _ _ so_will _ Hbin7)|apply (link_getany_step _ _ _ _ _ so_will _ Hbin7)|];
+      try assumption; try reflexivity.
     set (a8 := apply_props will_map true NoSub wp a7).
     assert (Hw8 : hasWill a8 = true) by (unfold a8; rewrite hasWill_apply_props; reflexivity).
     link_get (W F_topicName) Bin (VS wtp) a8; try exact Hw8; try exact Hwt.
@@ -999,39 +1312,40 @@ Qed.
 
 (* ------------------------------------------------------------------ *)
 (* every valid frame *)
-Definition fields (b : abody) : list field :=
+Definition fields (t : N) (b : abody) : list field :=
   match b with
   | BConnect flags ka ps cid will user pass => connect_fields flags ka ps cid will user pass
-  | BConnack fl rc ps => [fld (e_u8 fl); fld (e_u8 rc); fld (e_props ps)]
+  | BConnack fl rc ps => [fld (e_u8 fl); fld (e_u8 rc); sect 2 (sprops_ok 2) ps]
   | BPublish topic pid ps payload => publish_fields topic pid ps payload
-  | BAck pid form rc ps => ack_fields pid form rc ps
+  | BAck pid form rc ps => ack_fields t pid form rc ps
   | BSubscribe pid ps fs => subscribe_fields pid ps fs
-  | BSuback pid ps codes => suback_fields pid ps codes
+  | BSuback pid ps codes => suback_fields t pid ps codes
   | BUnsubscribe pid ps fs => unsubscribe_fields pid ps fs
   | BPing => []
-  | BDisc form rc ps => disc_fields form rc ps
+  | BDisc form rc ps => disc_fields t form rc ps
   end.
 
-Lemma fields_body b : concat (map fst (fields b)) = e_body b.
+Lemma fields_body t b : concat (map f_seg (fields t b)) = e_body b.
 Proof.
   destruct b as [flags ka ps cid will user pass|a rc ps|topic pid ps payload|pid form rc ps|pid ps fs|pid ps codes
                 |pid ps fs| |form rc ps]; cbn [fields e_body].
-  - unfold connect_fields, fld. destruct will; cbn [map concat fst app]; rewrite ?app_nil_r, <- ?app_assoc; reflexivity.
-  - unfold fld. cbn [map concat fst app]. rewrite ?app_nil_r. reflexivity.
-  - unfold publish_fields. cbv zeta. cbn [map concat fst app]. rewrite ?app_nil_r. reflexivity.
-  - unfold ack_fields. destruct (form =? 2); [cbn [map concat fst app]; rewrite ?app_nil_r; reflexivity|].
-    destruct (form =? 3); cbn [map concat fst app]; rewrite ?app_nil_r; reflexivity.
-  - unfold subscribe_fields. cbn [map concat fst app]. rewrite ?app_nil_r. reflexivity.
-  - unfold suback_fields. cbn [map concat fst app]. rewrite ?app_nil_r. reflexivity.
-  - unfold unsubscribe_fields. cbn [map concat fst app]. rewrite ?app_nil_r. reflexivity.
+  - unfold connect_fields. destruct will; cbn [map concat f_seg fld sect app]; rewrite ?app_nil_r, <- ?app_assoc; reflexivity.
+  - cbn [map concat f_seg fld sect app]. rewrite ?app_nil_r. reflexivity.
+  - unfold publish_fields. cbn [map concat f_seg fld sect raw_fld app]. rewrite ?app_nil_r. reflexivity.
+  - unfold ack_fields. destruct (form =? 2); [cbn [map concat f_seg fld sect app]; rewrite ?app_nil_r; reflexivity|].
+    destruct (form =? 3); cbn [map concat f_seg fld sect app]; rewrite ?app_nil_r; reflexivity.
+  - unfold subscribe_fields. cbn [map concat f_seg fld sect filters_fld app]. rewrite ?app_nil_r. reflexivity.
+  - unfold suback_fields. cbn [map concat f_seg fld sect raw_fld app]. rewrite ?app_nil_r. reflexivity.
+  - unfold unsubscribe_fields. cbn [map concat f_seg fld sect ufilters_fld app]. rewrite ?app_nil_r. reflexivity.
   - reflexivity.
   - unfold disc_fields. destruct (form =? 0); [reflexivity|].
-    destruct (form =? 1); cbn [map concat fst app]; rewrite ?app_nil_r; reflexivity.
+    destruct (form =? 1); cbn [map concat f_seg fld sect app]; rewrite ?app_nil_r; reflexivity.
 Qed.
 
 Theorem chain_all f : frame_ok f ->
   let b0 := af_type f * 16 + af_flags f in
-  exists k, fresh_pkt (b2n (n2b b0)) = (k, fresh_of b0) /\ cchain (dec_of k) (fresh_of b0) 0 (fields (af_body f)).
+  exists k, fresh_pkt (b2n (n2b b0)) = (k, fresh_of b0)
+            /\ cchain (dec_of k) (fresh_of b0) 0 (fields (af_type f) (af_body f)).
 Proof.
   destruct f as [t fl b]. unfold frame_ok. cbn [af_type af_flags af_body].
   destruct b as [flags ka ps cid will user pass|a rc ps|topic pid ps payload|pid form rc ps|pid ps fs|pid ps codes
@@ -1058,49 +1372,56 @@ Proof.
     + exists KAuth. split; [reflexivity|]. apply chain_auth; assumption.
 Qed.
 
+(* the general statement: the fields before one of them whole, then one of
+   its failing remainders *)
+Theorem damaged_frame_rejected f pre F post rem : frame_ok f ->
+  fields (af_type f) (af_body f) = pre ++ F :: post -> remainder F rem -> rem <> [] ->
+  exists e, decode_frame (n2b (af_type f * 16 + af_flags f)) (concat (map f_seg pre) ++ rem) = Some (None, Some e).
+Proof.
+  intros Hok E HR Hne. destruct (chain_all f Hok) as [k [Hfresh Hch]]. cbv zeta in *.
+  pose proof (cchain_fails _ _ _ _ Hch pre F post rem (concat (map f_seg pre) ++ rem) 0%nat E HR Hne (at_pos_0 _)) as Herr.
+  destruct (unmarshal_errs k _ _ Herr) as [e [p Hu]].
+  exists e. unfold decode_frame. rewrite Hfresh.
+  destruct (concat (map f_seg pre) ++ rem) as [|x r] eqn:Ef.
+  - apply app_eq_nil in Ef as [_ Ef]. contradiction.
+  - rewrite Hu. reflexivity.
+Qed.
+
 (* a cut position, in the fields of a body: inside the first field, or
    past it and inside one of the others *)
 Fixpoint field_cut (fs : list field) (c : nat) : Prop :=
   match fs with
   | [] => False
-  | (seg, J) :: rest =>
-      (J c /\ (0 < c < length seg)%nat) \/ ((length seg <= c)%nat /\ field_cut rest (c - length seg))
+  | F :: rest =>
+      (f_J F c /\ (0 < c < length (f_seg F))%nat) \/ ((length (f_seg F) <= c)%nat /\ field_cut rest (c - length (f_seg F)))
   end.
 
 Lemma field_cut_split fs : forall c, field_cut fs c ->
-  exists pre seg J post j, fs = pre ++ (seg, J) :: post /\ J j /\ (0 < j < length seg)%nat
-                           /\ c = (length (concat (map fst pre)) + j)%nat.
+  exists pre F post j, fs = pre ++ F :: post /\ f_J F j /\ (0 < j < length (f_seg F))%nat
+                       /\ c = (length (concat (map f_seg pre)) + j)%nat.
 Proof.
-  induction fs as [|[seg J] fs IH]; intros c H; [contradiction|]. cbn [field_cut] in H.
+  induction fs as [|F fs IH]; intros c H; [contradiction|]. cbn [field_cut] in H.
   destruct H as [[HJ Hc]|[Hc H]].
-  - exists [], seg, J, fs, c. repeat split; try assumption; lia.
-  - destruct (IH _ H) as [pre [seg' [J' [post [j [E [HJ [Hj Ec]]]]]]]].
-    exists ((seg, J) :: pre), seg', J', post, j. split; [rewrite E; reflexivity|]. split; [exact HJ|].
-    split; [exact Hj|]. cbn [map concat fst]. rewrite app_length. lia.
+  - exists [], F, fs, c. repeat split; try assumption; lia.
+  - destruct (IH _ H) as [pre [F' [post [j [E [HJ [Hj Ec]]]]]]].
+    exists (F :: pre), F', post, j. split; [rewrite E; reflexivity|]. split; [exact HJ|].
+    split; [exact Hj|]. cbn [map concat]. rewrite app_length. lia.
 Qed.
 
-Theorem cut_frame_rejected f c : frame_ok f -> field_cut (fields (af_body f)) c ->
+Theorem cut_frame_rejected f c : frame_ok f -> field_cut (fields (af_type f) (af_body f)) c ->
   exists e, decode_frame (n2b (af_type f * 16 + af_flags f)) (firstn c (e_body (af_body f))) = Some (None, Some e).
 Proof.
-  intros Hok Hcut. destruct (chain_all f Hok) as [k [Hfresh Hch]]. cbv zeta in *.
-  destruct (field_cut_split _ _ Hcut) as [pre [seg [J [post [j [E [HJ [Hj Ec]]]]]]]].
-  assert (Ecut : firstn c (e_body (af_body f)) = concat (map fst pre) ++ firstn j seg).
-  { rewrite <- fields_body, E, map_app, concat_app. cbn [map concat fst]. rewrite Ec.
+  intros Hok Hcut.
+  destruct (field_cut_split _ _ Hcut) as [pre [F [post [j [E [HJ [Hj Ec]]]]]]].
+  assert (Ecut : firstn c (e_body (af_body f)) = concat (map f_seg pre) ++ firstn j (f_seg F)).
+  { rewrite <- (fields_body (af_type f)), E, map_app, concat_app. cbn [map concat]. rewrite Ec.
     rewrite firstn_app_ge by lia. f_equal.
-    replace (length (concat (map fst pre)) + j - length (concat (map fst pre)))%nat with j by lia.
+    replace (length (concat (map f_seg pre)) + j - length (concat (map f_seg pre)))%nat with j by lia.
     apply firstn_app_lt. lia. }
-  assert (Hne : firstn j seg <> []).
-  { destruct seg; [cbn in Hj; lia|]. destruct j; [lia|]. discriminate. }
-  pose proof (cchain_cut _ _ _ _ Hch pre seg J post j (concat (map fst pre) ++ firstn j seg) 0%nat E HJ Hne
-                         (at_pos_0 _)) as Herr.
-  rewrite <- Ecut in Herr.
-  destruct (unmarshal_errs k _ _ Herr) as [e [p Hu]].
-  exists e. unfold decode_frame. rewrite Hfresh.
-  destruct (firstn c (e_body (af_body f))) as [|x r] eqn:Ef.
-  - symmetry in Ecut. apply app_eq_nil in Ecut as [_ Ef']. contradiction.
-  - rewrite Hu. reflexivity.
+  rewrite Ecut. apply (damaged_frame_rejected f pre F post); try assumption.
+  - left. exists j. split; [exact HJ|reflexivity].
+  - destruct (f_seg F); [cbn in Hj; lia|]. destruct j; [lia|]. discriminate.
 Qed.
-
 (* ------------------------------------------------------------------ *)
 (* The same over the field map of the reference encoder (Spec.Mqtt5
    body_segs): kinds 0 (single byte), 6 (raw payload) and 7 (byte list)
@@ -1138,14 +1459,14 @@ Qed.
 
 Definition refines (S : list seg) (Fs : list field) : Prop := forall c, seg_cut S c -> field_cut Fs c.
 Definition covers (S : list seg) (F : field) : Prop :=
-  seg_bytes S = fst F /\ forall c, seg_cut S c -> snd F c.
+  seg_bytes S = f_seg F /\ forall c, seg_cut S c -> f_J F c.
 
 Lemma refines_nil : refines [] [].
 Proof. intros c H. exact H. Qed.
 
 Lemma refines_cons S F Ss Fs : covers S F -> refines Ss Fs -> refines (S ++ Ss) (F :: Fs).
 Proof.
-  intros [Hb HJ] Hr c H. destruct F as [seg J]. cbn [fst snd] in *. cbn [field_cut].
+  intros [Hb HJ] Hr c H. cbn [field_cut].
   destruct (seg_cut_app S Ss c H) as [H1|[H1 H2]].
   - left. split; [apply HJ; exact H1|]. rewrite <- Hb. apply seg_cut_bound. exact H1.
   - right. rewrite <- Hb. split; [exact H1|apply Hr; exact H2].
@@ -1160,7 +1481,7 @@ Proof.
   destruct H as [[_ H]|[_ []]]. exact H.
 Qed.
 
-Lemma covers_nocut kd b : kd = 6 \/ kd = 7 -> covers [(kd, b)] (b, nocut).
+Lemma covers_nocut kd b : kd = 6 \/ kd = 7 -> covers [(kd, b)] (raw_fld b).
 Proof.
   intros Hk. split; [unfold seg_bytes; cbn; apply app_nil_r|]. intros c H. cbn [seg_cut] in H.
   destruct H as [[[H0 [H6 H7]] _]|[_ []]]. destruct Hk; contradiction.
@@ -1175,18 +1496,18 @@ Proof.
   rewrite map_map. reflexivity.
 Qed.
 
-Lemma covers_props ps : covers (s_props ps) (fld (e_props ps)).
+Lemma covers_props where_ okps ps : covers (s_props ps) (sect where_ okps ps).
 Proof.
-  split; [apply s_props_bytes|]. intros c H. cbn [fld snd]. unfold interior.
+  split; [apply s_props_bytes|]. intros c H. cbn [sect f_J]. unfold interior.
   rewrite <- s_props_bytes. apply seg_cut_bound. exact H.
 Qed.
 
 Lemma covers_opt o : covers (s_opt o) (fld (e_opt o)).
 Proof. destruct o; [apply covers_one|apply covers_empty]. Qed.
 
-Lemma covers_ufilters fs : covers (map (fun f => (3, e_str f)) fs) (concat (map e_str fs), in_ufilter fs).
+Lemma covers_ufilters fs : covers (map (fun f => (3, e_str f)) fs) (ufilters_fld fs).
 Proof.
-  split; [unfold seg_bytes; rewrite map_map; reflexivity|]. cbn [snd].
+  split; [unfold seg_bytes; rewrite map_map; reflexivity|]. cbn [ufilters_fld f_J].
   induction fs as [|f fs IH]; intros c H; [contradiction|]. cbn [map seg_cut] in H.
   destruct H as [[_ H]|[H1 H2]].
   - exists [], f, fs, c. split; [reflexivity|]. split; [reflexivity|exact H].
@@ -1197,12 +1518,12 @@ Qed.
 
 Lemma covers_filters fs :
   covers (concat (map (fun f => [(3, e_str (fst f)); (0, e_u8 (snd f))]) fs))
-         (concat (map e_filter fs), in_filter fs).
+         (filters_fld fs).
 Proof.
   split.
-  - unfold seg_bytes. induction fs as [|f fs IH]; [reflexivity|]. cbn [map concat app snd fst].
+  - unfold seg_bytes. cbn [filters_fld f_seg]. induction fs as [|f fs IH]; [reflexivity|]. cbn [map concat app snd fst].
     unfold e_filter at 1. rewrite <- app_assoc. cbn [fst] in IH. rewrite IH. reflexivity.
-  - cbn [snd]. induction fs as [|f fs IH]; intros c H; [contradiction|]. cbn [map concat app seg_cut] in H.
+  - cbn [filters_fld f_J]. induction fs as [|f fs IH]; intros c H; [contradiction|]. cbn [map concat app seg_cut] in H.
     destruct H as [[_ H]|[H1 [[[H0 _] _]|[H2 H3]]]].
     + exists [], f, fs, c. split; [reflexivity|]. split; [reflexivity|exact H].
     + congruence.
@@ -1211,7 +1532,7 @@ Proof.
       cbn [map concat]. rewrite app_length. unfold e_filter at 1. rewrite app_length. lia.
 Qed.
 
-Theorem segs_refine b : refines (body_segs b) (fields b).
+Theorem segs_refine t b : refines (body_segs b) (fields t b).
 Proof.
   destruct b as [flags ka ps cid will user pass|a rc ps|topic pid ps payload|pid form rc ps|pid ps fs|pid ps codes
                 |pid ps fs| |form rc ps]; cbn [fields body_segs].
@@ -1273,4 +1594,42 @@ Proof.
   destruct (enc_vb_wf (len cut) Hlen) as [W V].
   destruct (read_packet_frame b0 (enc_vb (len cut)) cut rest s None (Some e) W (eq_sym V) Hs Hav He) as [tr E].
   exists e, tr. exact E.
+Qed.
+
+
+(* (b)-(d) for whole frames: the fields before a property section whole,
+   then a section that is poisoned, then anything *)
+Lemma bad_section_nonempty where_ okps bad : bad_section where_ okps bad -> bad <> [].
+Proof.
+  intros [[a [b [c [e [-> _]]]]]|[L [ps1 [t [-> [HL _]]]]]]; [discriminate|].
+  rewrite (e_var_enc_vb L HL). pose proof (encode_nonempty Vb (VN L)) as H. cbn [encode valN] in H.
+  destruct (enc_vb L); [exfalso; specialize (H ltac:(discriminate) ltac:(discriminate)); cbn in H; lia|discriminate].
+Qed.
+
+Theorem poisoned_frame_rejected f pre where_ okps ps post bad rest : frame_ok f ->
+  fields (af_type f) (af_body f) = pre ++ sect where_ okps ps :: post -> bad_section where_ okps bad ->
+  exists e, decode_frame (n2b (af_type f * 16 + af_flags f)) (concat (map f_seg pre) ++ bad ++ rest) = Some (None, Some e).
+Proof.
+  intros Hok E Hbad. apply (damaged_frame_rejected f pre (sect where_ okps ps) post); try assumption.
+  - right. exists bad, rest. split; [exact Hbad|reflexivity].
+  - intros E0. apply app_eq_nil in E0 as [E0 _]. exact (bad_section_nonempty _ _ _ Hbad E0).
+Qed.
+
+Theorem poisoned_frame_read_packet f pre where_ okps ps post bad rest s after :
+  frame_ok f ->
+  fields (af_type f) (af_body f) = pre ++ sect where_ okps ps :: post -> bad_section where_ okps bad ->
+  let b0 := n2b (af_type f * 16 + af_flags f) in
+  let body := concat (map f_seg pre) ++ bad ++ rest in
+  len body < 268435456 ->
+  sbytes s = b0 :: enc_vb (len body) ++ body ++ after ->
+  avail (len (b0 :: enc_vb (len body) ++ body)) s = true ->
+  exists e tr, read_packet s =
+    RP {| r_pkt := None; r_err := Some e; r_rest := sdrop (len (b0 :: enc_vb (len body) ++ body)) s;
+          r_trace := tr; r_got := b0 :: enc_vb (len body) ++ body |}.
+Proof.
+  intros Hok E Hbad b0 body Hlen Hs Hav.
+  destruct (poisoned_frame_rejected f pre where_ okps ps post bad rest Hok E Hbad) as [e He]. fold b0 body in He.
+  destruct (enc_vb_wf (len body) Hlen) as [W V].
+  destruct (read_packet_frame b0 (enc_vb (len body)) body after s None (Some e) W (eq_sym V) Hs Hav He) as [tr Er].
+  exists e, tr. exact Er.
 Qed.
